@@ -8,6 +8,7 @@ use std::sync::Arc;
 
 pub mod diff;
 pub mod seq_inv;
+pub mod subjects;
 
 #[derive(Clone)]
 pub struct Ctx {
@@ -68,5 +69,6 @@ pub fn all() -> Vec<Property> {
   let mut v = Vec::new();
   v.extend(seq_inv::properties());
   v.extend(diff::properties());
+  v.extend(subjects::properties());
   v
 }
